@@ -34,7 +34,7 @@ W = "World = real VipnodePool + payPerInterval + PaymentService + store driver +
 CHECKS.update({
  "C01": dict(level="exploration",
    text=W+"Seeded sequential histories on both drivers; after every operation that returns, the credit sum (Stats().TotalCredit and, independently, the per-account getters) must be unchanged, except after a successful withdrawal where it must drop by exactly the settled credit. Concurrent interleavings are covered by the C10 scenarios; c01_ledger_faults repeats the histories with one injected storage error per run (any store operation of the pool fails once, as on a full disk) and demands the same conservation after the failed operation.",
-   note="Connections, agents, chain deposit table and settlement handler are stubs. The sum is read from the inner store at quiescent points.",
+   note="Connections, agents, chain deposit table and settlement handler are stubs. The sum is read from the inner store at quiescent points. One isolated storage error per run is survived (c01_ledger_faults); c01_ledger_outage (two to four store calls in a row fail) shows a genuine defect that is listed in known_findings.json rather than repaired (it needs an atomic transfer operation in the store interface): the check prints KNOWN-FINDING lines for it and exits 0.",
    technique=TECH+"pool operation histories with clock jumps; conservation invariant after every step", design="4 C01"),
  "C02": dict(level="exploration",
    text=W+"Keep-alive histories with elapsed times from 0 to days and prices up to 2^200; each accepted client keep-alive must move exactly floor(elapsed*price/interval) to every tracked active peer and the sum from the client (model mirror of every balance, compared after every operation); hosts, zero elapsed time and empty peer sets move nothing. c02_stall stalls the handler between check-in stamp and charge; c02_billing_faults injects one storage error per run: a keep-alive that returns an error other than the low-balance cut-off moves no balance.",
